@@ -146,7 +146,7 @@ Print Assumptions C06_typed_invariant.
 
 (* (c) refusal at operation level, with the rollback repair: a creation under the identifier of a live registered instance
        of the same kind, class and workspace returns Refused; exactly one instance was allocated and it is dead; every
-       earlier record, every registry, the flat containers, the uuid4 counter and the liveness of every earlier entity
+       earlier record (children lists included), every registry, the flat containers AND the child links of the file, the uuid4 counter and the liveness of every earlier entity
        are unchanged *)
 Theorem C06_refused_create_unchanged : forall c h ws (isobj : bool) parent e0,
   rollback c = true ->
@@ -158,7 +158,7 @@ Theorem C06_refused_create_unchanged : forall c h ws (isobj : bool) parent e0,
   snd r = Refused /\ n (fst r) = S (n w) /\ alive (fst r) (n w) = false
   /\ (forall y, y < n w -> E (fst r) y = E w y)
   /\ (forall ws' k', R (fst r) ws' k' = R w ws' k')
-  /\ (forall ws', flat (fst r) ws' = flat w ws') /\ fresh (fst r) = fresh w
+  /\ (forall ws', flat (fst r) ws' = flat w ws' /\ links (fst r) ws' = links w ws') /\ fresh (fst r) = fresh w
   /\ (forall y, y < n w -> ekind (E w y) <> KType -> alive (fst r) y = alive w y).
 Proof. exact refused_create_unchanged. Qed.
 Print Assumptions C06_refused_create_unchanged.
